@@ -105,7 +105,7 @@ Proof.
     { apply lor_bound; [exact Hacc | apply bit_of_bound; lia]. }
     exists bits. split; [exact Hf|]. split; [exact Hb|].
     intros j Hj. rewrite (Hbits j Hj), Z.lor_spec, (bit_of_testbit i j) by lia.
-    rewrite Hl. rewrite orb_assoc. reflexivity.
+    rewrite orb_assoc. reflexivity.
 Qed.
 
 (** ** decoding *)
@@ -124,12 +124,16 @@ Lemma generated_decode_eq bits m :
   C15.Gen.regions_bits_rep_to_regions (Some bits) m = option_map Some (foldM (dec_step bits) m []).
 Proof.
   unfold C15.Gen.regions_bits_rep_to_regions.
-  match goal with |- bind ?e _ = _ => assert (H : e = foldM (dec_step bits) m []) end.
-  { cbn zeta. generalize (@nil (list N)) as acc.
-    induction m as [|[r i] m IH]; intros acc; cbn [foldM bind]; [reflexivity|].
-    unfold dec_step at 1, py_rshift. cbn [fst snd]. destruct (i - 1 <? 0); cbn [bind]; [reflexivity|].
+  assert (H : forall acc,
+    (do result <- foldM (fun (result : list (list N)) '(region, idx) =>
+        do t1 <- py_rshift bits (idx - 1);
+        do result0 <- (if negb (Z.land t1 1 =? 0) then Some (result ++ [region]) else Some result); Some result0) m acc;
+     Some result) = foldM (dec_step bits) m acc).
+  { induction m as [|[r i] m IH]; intros acc; cbn [foldM bind]; [reflexivity|].
+    unfold dec_step at 1, py_rshift. cbn [fst snd]. destruct (i - 1 <? 0) eqn:E; cbn [bind]; [reflexivity|].
     rewrite land_1_testbit, Z.shiftr_spec by lia. rewrite Z.add_0_l.
     destruct (Z.testbit bits (i - 1)); cbn [bind]; apply IH. }
+  cbn zeta.
   rewrite H. destruct (foldM (dec_step bits) m []); reflexivity.
 Qed.
 
